@@ -590,6 +590,11 @@ Fixpoint select (op : boolop) (vs : list value) : result :=
 
 Definition is_typem (v : value) : bool := match v with VTypeM _ => true | _ => false end.
 
+(* the operators of the documented language *)
+Definition lang_binop (op : binop) : bool :=
+  match op with Add | Mult | Div | Mod | BitAnd | BitOr => true | _ => false end.
+Definition lang_unop (op : unop) : bool := match op with Not => true | _ => false end.
+
 (* ------------------------------------------------------------------------------------------------ *)
 (* PART 2: the Python meaning                                                                        *)
 Section Python.
@@ -600,7 +605,9 @@ Variable wrapped : bool.           (* r is a WrappedRecord: a field the record l
 Definition py_name (ns : names) (n : string) : result :=
   match lookup n ns with
   | Some v => Val v
-  | None => if in_list n roots then Val (VFt n) else Exc ENameError
+  | None => if in_list n roots then Val (VFt n)
+            else if in_list n python_builtin_names then Exc EUnmodelled     (* len, bool, int ...: not modelled *)
+            else Exc ENameError
   end.
 
 (* strict evaluation: the sentinel as the value of a sub-expression means "not defined on this record" *)
@@ -728,8 +735,11 @@ Fixpoint py_eval_gen (strict : bool) (ns : names) (e : expr) {struct e} : result
       if strict
       then match p_seq (py_eval_gen strict) ns es with inl vs => select op vs | inr x => Exc x end
       else p_lazy (py_eval_gen strict) op ns es
-  | EUnary op a => match py_eval_gen strict ns a with Val v => unop_meaning op v | x => x end
+  | EUnary op a =>
+      if strict && negb (lang_unop op) then Exc EUndefined       (* an operator outside the language *)
+      else match py_eval_gen strict ns a with Val v => unop_meaning op v | x => x end
   | EBinOp op l r =>
+      if strict && negb (lang_binop op) then Exc EUndefined else
       match py_eval_gen strict ns l with
       | Val a => match py_eval_gen strict ns r with Val b => binop_meaning op a b | x => x end
       | x => x
@@ -1021,3 +1031,46 @@ Definition compiled (R : record) (e : expr) : result := py_eval_gen R compiled_e
 
 (* every sub-expression is defined on the record (and/or operands included, whether Python would skip them or not) *)
 Definition all_defined (R : record) (e : expr) : Prop := exists v, py_strict R e = Val v.
+
+(* ------------------------------------------------------------------------------------------------ *)
+(* the documented language as a predicate on expressions                                             *)
+Definition no_gvars (e : expr) : bool := match gvars e with [] => true | _ => false end.
+Definition callee_shape (f : expr) : bool := match f with EName _ | EAttr _ _ => true | _ => false end.
+
+(* [bpos]: the expression stands where only its truth value is used (top level, operand of and/or/not,
+   condition or element of any()/all()).  and/or are in the language in such positions only: elsewhere their
+   VALUE (an operand in Python, a bool in the interpreter) would be observed.  A generator expression may not
+   sit inside the part of another one that is evaluated once per element (its condition, its element, the
+   iterable of a second `for`): the interpreter cannot enter a generator expression twice. *)
+Fixpoint lang (bpos : bool) (e : expr) {struct e} : bool :=
+  match e with
+  | EConst _ | EName _ => true
+  | EAttr o _ => lang false o
+  | EList es | ETuple es => forallb (lang false) es
+  | EBoolOp _ es => bpos && forallb (lang true) es
+  | EUnary op a => match op with Not => lang true a | _ => false end
+  | EBinOp op l r => lang_binop op && lang false l && lang false r
+  | ECompare l rest => lang false l && forallb (fun oc => lang false (snd oc)) rest
+  | ECall f args kws =>
+      callee_shape f && lang false f && forallb (lang false) args && forallb (fun kw => lang false (snd kw)) kws
+  | EQuant _ elt gens =>
+      lang true elt && no_gvars elt &&
+      match gens with
+      | [] => false
+      | Comp _ it cs :: gs =>
+          lang false it && forallb (fun c => lang true c && no_gvars c) cs &&
+          forallb (fun g => match g with
+                            | Comp _ it' cs' => lang false it' && no_gvars it' && forallb (fun c => lang true c && no_gvars c) cs'
+                            end) gs
+      end
+  | EOther _ => false
+  end.
+
+Definition in_language (e : expr) : bool := lang true e.
+
+Fixpoint nodupb (l : list string) : bool :=
+  match l with [] => true | x :: t => negb (in_list x t) && nodupb t end.
+
+(* generator variable names: pairwise distinct, none of the names `matches` defines, no field-type name *)
+Definition fresh_vars (e : expr) : bool :=
+  nodupb (gvars e) && forallb (fun x => negb (in_dom x std_data) && negb (in_list x whitelist_roots)) (gvars e).
